@@ -83,6 +83,8 @@ AsmWhy(r) ==
            \E j \in 1..Len(r.err.spans) : SpanOK(r.err.spans[j], Len(src)) /\
                 Upper(DecodeUtf8(SubBytes(src, r.err.spans[j]))) \notin OffendingLabels(prog, X, D, r.res)
         THEN {"errlabel"} ELSE {})
+     \* ---- C23: the symbol table of a well-formed program exists (otherwise no label can be looked up)
+  \cup (IF r.parse = "ok" /\ r.panic = 0 /\ wf /\ ~p1ok THEN {"symtab-rejected"} ELSE {})
      \* ---- C23 / C24: queries on the symbol table
   \cup (IF p1ok /\ wf /\ \E j \in 1..Len(r.q) :
             LET q == r.q[j] IN
